@@ -20,7 +20,10 @@ RULE = ("2-3 objects (MafRecord parsed by MafRecord.from_line under the built-in
         "same names (reversed / rotated / one name dropped, either order class) first builds keys for the same "
         "objects in the same interpreter (\"warm\"), then the case's own sort order is observed; for another share the "
         "case's sort order instance is first handed to MafHeader.from_defaults(sort_order=instance, contigs=other list) "
-        "once or twice (\"lend\": a header may not rewrite the caller's instance); non-trivial = at least two keys built "
+        "once or twice (\"lend\": a header may not rewrite the caller's instance); for a share of the cases "
+        "with contigs the sort order is built with fasta_index=<a .fai file written for the case> instead of "
+        "contigs=[...]; also observed: str(key) of every built key, SortOrder.find(name) for a known or unknown name, "
+        "and the key function applied to an object that is not a Locatable; non-trivial = at least two keys built "
         "and at least one ordered pair of distinct objects compared; distinct by hash of the case")
 ASSUMPTIONS = [
     "values reaching a key are None, int or str (no float, bool, bytes, user classes)",
@@ -30,6 +33,8 @@ ASSUMPTIONS = [
     "a MafRecord is coherent (C15): len() == 0 iff it holds no column",
     "Coordinate(fasta_index=...) is equivalent to passing the first tab field of each line as contigs and is not modelled",
     "BarcodesAndCoordinate keys of a plain Locatable raise AttributeError (no value() method); reported as a generic exception",
+    "str() of a BarcodesAndCoordinate key whose tumor or normal barcode is missing raises TypeError in the library "
+    "(it joins the raw barcodes); modelled as such, not judged by the oracle (the library does not use it itself)",
 ]
 
 ORDERS = {"C": 0, "B": 1}
@@ -37,8 +42,12 @@ CONTIG_MODES = ["none", "none", "empty", "lexical", "karyotypic", "karyotypic", 
 
 
 # ------------------------------------------------------------ generation
-def _case(stream, order, contigs, recs, warm=None, lend=None):
-    return {"stream": stream, "order": order, "contigs": contigs, "recs": recs, "warm": warm, "lend": lend}
+FIND_NAMES = ["Coordinate", "BarcodesAndCoordinate", "Unsorted", "Unknown", "Karyotypic", "coordinate", "", "Coordinate "]
+
+
+def _case(stream, order, contigs, recs, warm=None, lend=None, fai=False, find="Coordinate"):
+    return {"stream": stream, "order": order, "contigs": contigs, "recs": recs, "warm": warm, "lend": lend,
+            "fai": fai, "find": find}
 
 
 def _other_contigs(rng, contigs):
@@ -113,7 +122,8 @@ def _gen_one(rng):
     if rng.random() < 0.25:
         base = [str(x) for x in contigs] if contigs else list(chroms)
         lend = [_other_contigs(rng, base) for _ in range(rng.choice([1, 1, 2]))]
-    return _case(stream, order, contigs, recs, warm, lend)
+    fai = bool(contigs) and all(isinstance(c, str) and c.strip() == c and c for c in contigs) and rng.random() < 0.3
+    return _case(stream, order, contigs, recs, warm, lend, fai, rng.choice(FIND_NAMES))
 
 
 def generate(rng, n):
@@ -154,6 +164,10 @@ def corpus():
               warm=["B", ["chr10", "chr2", "chr1"]]),
         _case("corpus", "C", ["chr1", "chr2"], [_u(chrom="chr2", start="1", end="1"), _u(chrom="chr10", start="1", end="1")],
               warm=["C", ["chr10", "chr2", "chr1"]]),
+        # contigs read from a .fai file behave like contigs=[first column]
+        _case("corpus", "B", ["chr1", "chr2", "chr10"], [_u(tumor="T1", normal="N1", chrom="chr10", start="1", end="1"),
+                                                        _u(tumor="T1", normal="N1", chrom="chr2", start="1", end="1"),
+                                                        _u(tumor="T1", normal="N1", chrom="chrZ", start="1", end="1")], fai=True, find="Karyotypic"),
         # the caller's sort order instance is handed to a header with contigs and used afterwards: it must be unchanged
         _case("corpus", "C", None, [_u(chrom="chr2", start="1", end="1"), _u(chrom="chr10", start="1", end="1"), _u(chrom="chrZ", start="1", end="1")],
               lend=[["chr1", "chr2", "chr10"]]),
@@ -186,15 +200,16 @@ def shrink(case):
 def to_model(case):
     contigs = case["contigs"]
     return [0, ORDERS[case["order"]], OPT(contigs, lambda l: [C.m_pv(x) for x in l]),
-            [C.m_loc(r) for r in case["recs"]]]
+            [C.m_loc(r) for r in case["recs"]], S(case.get("find", "Coordinate"))]
 
 
 def from_model(case, sx):
     if len(sx) == 1:
         return {"fatal": sx[0][0]}
-    info, pairs = sx
+    info, pairs, find = sx
     return {
-        "info": [[C.d_echo(e), C.d_unit(k)] for e, k in info],
+        "find": ["ok", U(find[1])] if find[0] == 0 else ["exc", find[1][0]],
+        "info": [[C.d_echo(e), C.d_unit(k), (C.d_res(st, U) if st else None)] for e, k, st in info],
         "pairs": [[([C.d_res(x) for x in p[:1]] + [C.d_res(x, bool) for x in p[1:]]) if p else None for p in row]
                   for row in pairs],
     }
@@ -202,11 +217,18 @@ def from_model(case, sx):
 
 # ------------------------------------------------------------ implementation
 def run_impl(case):
-    from maflib.sort_order import BarcodesAndCoordinate, Coordinate
+    from maflib.sort_order import BarcodesAndCoordinate, Coordinate, SortOrder
 
     cls = Coordinate if case["order"] == "C" else BarcodesAndCoordinate
     contigs = case["contigs"]
-    so = cls(contigs=list(contigs)) if contigs is not None else cls()
+    if case.get("fai") and contigs:
+        path = C.write_fai(contigs)
+        try:
+            so = cls(fasta_index=path)
+        finally:
+            C.remove_file(path)
+    else:
+        so = cls(contigs=list(contigs)) if contigs is not None else cls()
     if case.get("lend"):
         # hand the instance to one or two headers that carry other contig lists
         from maflib.header import MafHeader
@@ -229,10 +251,28 @@ def run_impl(case):
         try:
             k = keyf(o)
             keys.append(k)
-            info.append([C.echo_obj(o), None])
+            try:
+                text = ["ok", str(k)]
+            except Exception as e:
+                text = ["exc", C.exc_code(e)]
+            info.append([C.echo_obj(o), None, text])
         except Exception as e:
             keys.append(None)
-            info.append([C.echo_obj(o), C.exc_code(e)])
+            info.append([C.echo_obj(o), C.exc_code(e), None])
+    # SortOrder.find, and the key function on something that is not a Locatable
+    misc = {}
+    try:
+        found = SortOrder.find(case.get("find", "Coordinate"))
+        find = ["ok", found.name()]
+        misc["find_is_class"] = isinstance(found, type) and issubclass(found, SortOrder)
+    except Exception as e:
+        find = ["exc", C.exc_code(e)]
+        misc["find_message_lists_names"] = all(c.name() in str(e) for c in SortOrder.all())
+    try:
+        keyf(object())
+        misc["non_locatable"] = None
+    except Exception as e:
+        misc["non_locatable"] = C.exc_code(e)
     import operator as op
 
     def res(f, conv=lambda x: x):
@@ -254,7 +294,11 @@ def run_impl(case):
             row.append([res(lambda: a.__cmp__(b))] +
                        [res(lambda f=f: f(a, b), bool) for f in (op.lt, op.le, op.gt, op.ge, op.eq, op.ne)])
         pairs.append(row)
-    return {"info": info, "pairs": pairs}
+    return {"find": find, "info": info, "pairs": pairs, "_misc": misc}
+
+
+def comparable(obs):
+    return {k: v for k, v in obs.items() if k != "_misc"}
 
 
 # ------------------------------------------------------------ oracle
@@ -295,6 +339,7 @@ def oracle(case, obs):
                     out.append("comparison-raised %s on (%d,%d): %r" % (name, i, j, g[1]))
                 elif g[1] != e:
                     out.append("order-differs-from-documented %s on (%d,%d): got %r want %r" % (name, i, j, g[1], e))
+    out += _oracle_extra(case, obs)
     # preorder laws on the observed `<=` alone (independent of the documented key)
     ok = [i for i in range(n) if dkeys[i] not in (None, "unlisted") and obs["info"][i][1] is None]
 
@@ -311,6 +356,39 @@ def oracle(case, obs):
             for k in ok:
                 if le(i, j) and le(j, k) and not le(i, k):
                     out.append("not-transitive (%d,%d,%d)" % (i, j, k))
+    return out
+
+
+def _oracle_extra(case, obs):
+    out = []
+    known = ["Unknown", "Unsorted", "BarcodesAndCoordinate", "Coordinate"]
+    name = case.get("find", "Coordinate")
+    m = obs.get("_misc", {})
+    if name in known:
+        if obs["find"] != ["ok", name] or not m.get("find_is_class"):
+            out.append("find-known-name-failed %r: %r" % (name, obs["find"]))
+    else:
+        if obs["find"] != ["exc", C.EXC["ValueError"]]:
+            out.append("find-unknown-name-not-an-error %r: %r" % (name, obs["find"]))
+        elif not m.get("find_message_lists_names"):
+            out.append("find-error-does-not-list-the-orders %r" % name)
+    # coordinate order: the documented ValueError; barcode order asks the object for value() first (AttributeError)
+    if m.get("non_locatable") not in ([C.EXC["ValueError"]] if case["order"] == "C" else [C.EXC["ValueError"], C.EXC["AttributeError"]]):
+        out.append("non-locatable-not-reported: %r" % (m.get("non_locatable"),))
+    # str(key): the components, tab separated; never an exception for coordinate keys
+    by_bar = case["order"] == "B"
+    for i, d in enumerate(case["recs"]):
+        inf = obs["info"][i]
+        if inf[1] is not None or inf[2] is None or (by_bar and d["kind"] == "plain"):
+            continue
+        dk = C.documented_key(d, by_bar, case["contigs"])
+        if dk == "unlisted":
+            continue
+        if by_bar and (dk[0] is None or dk[1] is None):
+            continue        # a missing barcode: the library's __str__ raises (reported, not judged)
+        want = "\t".join(str(x) for x in dk)
+        if inf[2] != ["ok", want]:
+            out.append("key-text-wrong rec %d: %r want %r" % (i, inf[2], want))
     return out
 
 
